@@ -226,6 +226,9 @@ func (rt *runtime) cmplEvaluateNodeForInStatement(node *nodeForInStatement) Valu
 						obj = nil
 						return false
 					case resultBreak:
+						if !enumerateValue.isEmpty() {
+							result = enumerateValue
+						}
 						obj = nil
 						return false
 					case resultContinue:
